@@ -11,6 +11,8 @@ for pid in C01 C02 C03 C04 C05 C06 C07 C08 C09 C10 C11 C12 C13 C14 C15 C16 C17 C
 done
 echo "alarms=$alarms"
 git -C /repo checkout -- .
+# the evidence files must describe the unchanged tree: rewrite them
+for pid in C01 C02 C03 C04 C05 C06 C07 C08 C09 C10 C11 C12 C13 C14 C15 C16 C17 C18 C19; do timeout 1800 ./check $pid --tier quick > /dev/null 2>&1 || echo "WARNING: $pid does not pass on the unchanged tree"; done
 python3 -c "
 import sys; sys.path.insert(0,'/verif')
 from vcheck import translator, translator_db, translator_knobs
